@@ -416,13 +416,19 @@ func (e *ksEngine) shape(v ssa.Value, d int) KeyShape {
 		}
 		// module function with a single []byte result computed from params: inline its shape
 		if g := x.Common().StaticCallee(); g != nil && len(g.Blocks) > 0 && g.Signature.Results().Len() == 1 && d < 6 {
-			if s, ok := e.returnShape(g, d+1); ok {
+			if s, ok := e.returnShape(g, d+1, 0); ok {
 				return e.subst(s, args)
 			}
 		}
 		return KeyShape{{Kind: AVar, Src: callee.Name() + "()"}}
 	case *ssa.Extract:
 		if call, ok := x.Tuple.(*ssa.Call); ok {
+			// module helper returning the key among several results: inline that result's shape
+			if g := call.Common().StaticCallee(); g != nil && len(g.Blocks) > 0 && x.Index < g.Signature.Results().Len() && d < 6 {
+				if s, ok := e.returnShape(g, d+1, x.Index); ok {
+					return e.subst(s, call.Common().Args)
+				}
+			}
 			if callee := ir.CalleeObj(call); callee != nil {
 				return KeyShape{{Kind: AVar, Src: callee.Name() + "()"}}
 			}
@@ -445,8 +451,8 @@ func short(v ssa.Value) string {
 }
 
 // returnShape: the shape of g's single return value if all returns agree.
-func (e *ksEngine) returnShape(g *ssa.Function, d int) (KeyShape, bool) {
-	if !isByteSlice(g.Signature.Results().At(0).Type()) {
+func (e *ksEngine) returnShape(g *ssa.Function, d int, idx int) (KeyShape, bool) {
+	if !isByteSlice(g.Signature.Results().At(idx).Type()) {
 		return nil, false
 	}
 	var first KeyShape
@@ -456,7 +462,13 @@ func (e *ksEngine) returnShape(g *ssa.Function, d int) (KeyShape, bool) {
 		if !ok {
 			continue
 		}
-		s := e.shape(ret.Results[0], d).Norm()
+		if idx >= len(ret.Results) {
+			return nil, false
+		}
+		if k, isK := ret.Results[idx].(*ssa.Const); isK && k.IsNil() && len(ret.Results) > 1 {
+			continue // `return nil, err`
+		}
+		s := e.shape(ret.Results[idx], d).Norm()
 		if n == 0 {
 			first = s
 		} else if s.Canon() != first.Canon() {
